@@ -384,7 +384,7 @@ def k_matmul(ex, st, node, l, r):
         st.pc.append(z3.ForAll([x], z3.Implies(annihilates(rows, nr, x), ip_atoms(x, p).eq(0)), patterns=[ipr(x, p), ipi(x, p)]))
         st.pc.append(z3.ForAll([x], z3.Implies(annihilates(rows, nr, x, False), ip_atoms(p, x).eq(0)), patterns=[ipr(p, x), ipi(p, x)]))
         # coefficient facts need orthonormal rows (Krylov.lean: coeff_of_orthonormal_sum): premise first
-        prem = ex.solver.implied([q for q in st.pc if is_z(q)], orthonormal(rows, nr), final=True)
+        prem = None if getattr(ex, 'skip_lemmas', False) else ex.solver.implied([q for q in st.pc if is_z(q)], orthonormal(rows, nr), final=True)
         ex.lemma_uses.append(('coeff_of_orthonormal_sum', node.lineno, prem))
         if prem is True:
             st.pc.append(z3.ForAll([i], z3.Implies(z3.And(0 <= i, i < nr), z3.And(ip_atoms(rows(i), p).eq(r.fn(i)), ip_atoms(p, rows(i)).eq(r.fn(i).conj())))))
@@ -426,7 +426,7 @@ def k_binop(ex, st, node, op, l, r):
         st.pc.append(z3.ForAll([x], (ip_atoms(x, v) * CV(beta)).eq(ip_atoms(x, u)), patterns=[ipr(x, v), ipi(x, v)]))
         st.pc.append(z3.ForAll([x], (ip_atoms(v, x) * CV(beta)).eq(ip_atoms(u, x)), patterns=[ipr(v, x), ipi(v, x)]))
         # u / ||u|| (Krylov.lean: normalized_has_norm_one, normalized_keeps_orthogonality): premise first
-        prem = ex.solver.implied([q for q in st.pc if is_z(q)], z3.And(beta == nrm(u), beta > 0), final=True)
+        prem = None if getattr(ex, 'skip_lemmas', False) else ex.solver.implied([q for q in st.pc if is_z(q)], z3.And(beta == nrm(u), beta > 0), final=True)
         ex.lemma_uses.append(('normalized_has_norm_one', node.lineno, prem))
         if prem is True:
             st.pc.append(ip_atoms(v, v).eq(1))
@@ -595,6 +595,9 @@ class KSolver(smt.Solver):
                 with open(os.path.join(os.environ['VT_KRY_DUMP'], f'q{self.queries}.smt2'), 'w') as fh:
                     fh.write(sv.to_smt2())
         self.queries += 1; self.seconds += time.time() - t0
+        if os.environ.get('VT_KRY_LOG') and time.time() - t0 > 2:
+            with open(os.environ['VT_KRY_LOG'], 'a') as fh:
+                fh.write(f'{time.time() - t0:.1f}s {r} final={final} {str(f)[:90]!r}\n')
         return True if r == 'unsat' else False if r == 'sat' else None
     def feasible(self, pc):
         t0 = time.time()
@@ -638,6 +641,22 @@ def _need(env, name, attr):
     return v
 
 
+VSTART = z3.Const('vstart', VecS)
+
+def first_row(row):
+    """row 0 is the normalised start vector: ip(x, v_0) * ||vstart|| = ip(x, vstart)"""
+    return z3.ForAll([x_], (ip_atoms(x_, row(0)) * CV(nrm(VSTART))).eq(ip_atoms(x_, VSTART)))
+
+
+def first_row_inv(env, row):
+    """loop-invariant form: row 0 *is* the (re-bound, normalised) variable `vstart`"""
+    v0 = env.get('vstart')
+    t = v0.single() if getattr(v0, 'is_kvec', False) else None
+    if t is None:
+        raise Unsupported('vstart is not a named abstract vector')
+    return row(0) == t
+
+
 def lanczos_spec():
     n = z3.Int('n'); m = z3.Int('numiter')
     thr = 100 * z3.ToReal(n) * EPS
@@ -662,6 +681,28 @@ def lanczos_spec():
         mp = zint(al.shape[0]); row = Vt.row
         return [('c', z3.ForAll([a_, b_], z3.Implies(z3.And(_in(a_, mp), _in(b_, mp)), ip_atoms(row(a_), Aop(row(b_))).eq(CV(z3.If(a_ == b_, al.fn(a_).re, 0))))))]
     return dict(n=n, m=m, hermitian=True, post=post, canary=canary, inv={'for j in range(numiter - 1)': inv})
+
+
+def first_vector_spec(which):
+    """a second, light contract on the same functions: the first Krylov vector is the normalised start vector.  It is verified in a
+    pass of its own (invariant: row 0 is the re-bound variable `vstart`), so that the facts about the normalisation do not take
+    part in the queries of the Krylov relations"""
+    def make():
+        n = z3.Int('n'); m = z3.Int('numiter')
+        def inv(env, ex, st):
+            V = _need(env, 'V', 'row')
+            return first_row_inv(env, V.row)
+        def post(ret, env, ex, st):
+            Vt = ret[-1]
+            if not (getattr(Vt, 'is_k2', False) and Vt.T and not Vt.cj and Vt.row is not None):
+                raise Unsupported('returned values are not of the expected abstract form')
+            return [('first_vector_is_normalized_start', z3.And(zint(Vt.shape[1]) >= 1, first_row(Vt.row)))]
+        def canary(ret, env, ex, st):
+            Vt = ret[-1]
+            return [('c', z3.ForAll([x_], ip_atoms(x_, Vt.row(0)).eq(ip_atoms(x_, VSTART) + CV(1))))]
+        invs = {'for j in range(numiter - 1)': inv}
+        return dict(n=n, m=m, hermitian=(which == 'lanczos'), post=post, canary=canary, inv=invs, only_named=True)
+    return make
 
 
 def arnoldi_spec():
@@ -797,7 +838,7 @@ def verify_fn(fn, spec_fn, confirm):
     lib = dict(LIB_Z); lib.update(LIB_K)
     solver = KSolver()
     ex = Exec(lib=lib, calls=spec.get('calls', {}), mode='Z', solver=solver, loop_handler=make_loop_handler(spec.get('inv', {})), fname=fn)
-    ex.assume_asserts = {'nrmv > 0'}; ex.lemma_uses = []
+    ex.assume_asserts = {'nrmv > 0'}; ex.lemma_uses = []; ex.skip_lemmas = bool(spec.get('only_named'))
     vs = z3.Const('vstart', VecS)
     args = spec['args'](vs) if 'args' in spec else {'Afunc': k_afunc, 'vstart': KVec.atom(n, vs), 'numiter': m}
     requires = [n >= 1, m >= 1, EPS > 0] + zero_facts() + symmetry_facts(spec['hermitian']) + list(spec.get('requires', []))
@@ -823,7 +864,7 @@ def verify_fn(fn, spec_fn, confirm):
             continue                               # sizes and indices are reported by the plain contract of vt/zobl.py
         status = 'discharged' if ob.holds is True else 'undecided'      # a counter-model of a quantified invariant is not trusted
         out.append(V(f'{ob.kind}@{ob.lineno}: {ob.text[:90]} [ip]', status, ob.detail or '', ob.kind))
-    for name, line, prem in ex.lemma_uses:
+    for name, line, prem in (ex.lemma_uses if not spec.get('only_named') else ()):
         out.append(V(f'lemma_premise@{line}: {name}', 'discharged' if prem is True else 'undecided', 'premise of the Lean-proved fact established by z3' if prem is True else 'premise not established: the fact is not used', 'lemma'))
     finals = [s for s in states if s.done and s.raised is None]
     if not finals:
@@ -858,7 +899,8 @@ def verify_fn(fn, spec_fn, confirm):
     return out
 
 
-TARGETS = {'C14': (('krylov.arnoldi_iteration', arnoldi_spec, ['arnoldi_iteration']), ('krylov.lanczos_iteration', lanczos_spec, ['lanczos_iteration'])),
+TARGETS = {'C14': (('krylov.arnoldi_iteration', arnoldi_spec, ['arnoldi_iteration']), ('krylov.lanczos_iteration', lanczos_spec, ['lanczos_iteration']),
+                   ('krylov.arnoldi_iteration', first_vector_spec('arnoldi'), ['arnoldi_iteration']), ('krylov.lanczos_iteration', first_vector_spec('lanczos'), ['lanczos_iteration'])),
            'C15': (('krylov.expm_krylov', expm_spec, ['expm_krylov']), ('krylov.eigh_krylov', eigh_spec, ['eigh_krylov']))}
 
 
